@@ -42,14 +42,17 @@ func (t *TaskExecutor[T]) ExecuteAt(identifier T, callback func(), executionTime
 
 	var scheduledTask *ScheduledTask
 	scheduledTask = t.Executor.ExecuteAt(func() {
-		callback()
-
+		// deregister the task before it runs: a running task can neither be canceled nor replaced anymore, and a task
+		// that was canceled or replaced after it was polled (its entry is gone or belongs to another task) must not run
 		t.queuedElementsMutex.Lock()
-		defer t.queuedElementsMutex.Unlock()
-
-		// only remove the own entry: the identifier might have been scheduled again in the meantime (e.g. by the callback)
-		if queuedElement, queuedElementExists := t.queuedElements.Get(identifier); queuedElementExists && queuedElement == scheduledTask {
+		queuedElement, queuedElementExists := t.queuedElements.Get(identifier)
+		if queuedElementExists = queuedElementExists && queuedElement == scheduledTask; queuedElementExists {
 			t.queuedElements.Delete(identifier)
+		}
+		t.queuedElementsMutex.Unlock()
+
+		if queuedElementExists {
+			callback()
 		}
 	}, executionTime)
 
